@@ -87,11 +87,11 @@ impl Spawner {
 
     /// Cancel the task with the given spawn index (what `JoinHandle::abort` / runtime shutdown does to it).
     pub fn verif_abort(index: usize) {
-        TASKS.with(|t| {
-            if let Some(h) = t.borrow().get(index) {
-                h.abort()
-            }
-        });
+        // `abort` is a scheduling point: do not keep the registry borrowed across it.
+        let handle = TASKS.with(|t| t.borrow().get(index).cloned());
+        if let Some(h) = handle {
+            h.abort()
+        }
     }
 
     /// Whether the task with the given spawn index has finished.
@@ -101,11 +101,11 @@ impl Spawner {
 
     /// Cancel every task spawned so far (runtime shutdown).
     pub fn verif_abort_all() {
-        TASKS.with(|t| {
-            for h in t.borrow().iter() {
-                h.abort();
-            }
-        });
+        // `abort` is a scheduling point: do not keep the registry borrowed across it.
+        let handles: Vec<_> = TASKS.with(|t| t.borrow().clone());
+        for h in handles {
+            h.abort();
+        }
     }
 
     /// Whether every task spawned so far has finished.
